@@ -24,6 +24,8 @@ structure Registry where
   dstPkgPath : String
   inPackage : Bool
   imports : List Pkg     -- insertion order
+  /-- the package name the output file declares (`SetDstPkgName`); "" = not recorded -/
+  dstPkgName : String := ""
 deriving Repr
 
 namespace Registry
@@ -116,9 +118,15 @@ def mkPkg (taken : List String) (name path : String) : Pkg :=
 
 def find? (r : Registry) (path : String) : Option Pkg := r.imports.find? (·.path == path)
 
+/-- The guard of `addImport`: the package is the one the output file itself belongs to – it sits at the
+destination path and either the registry was created in-package, or the package has the name the output file
+declares (a mock written into a third, existing package). -/
+def isSelf (r : Registry) (name path : String) : Bool :=
+  decide (path = r.dstPkgPath) && (r.inPackage || (decide (r.dstPkgName ≠ "") && decide (name = r.dstPkgName)))
+
 /-- `Registry.addImport`.  `none` is Go's `nil` result (destination package, in-package). -/
 def addImport (r : Registry) (name path : String) : Registry × Option Pkg :=
-  if path = r.dstPkgPath ∧ r.inPackage = true then (r, none)
+  if r.isSelf name path = true then (r, none)
   else match r.find? path with
     | some p => (r, some p)
     | none =>
